@@ -227,6 +227,25 @@ func (jenny RawTypes) generateConstructor(buffer *strings.Builder, context langu
 	buffer.WriteString("\n}\n")
 }
 
+// formatDefault formats a default value, typing list literals after the
+// array they are assigned to.
+func (jenny RawTypes) formatDefault(typeDef ast.Type, val any) string {
+	list, isList := val.([]any)
+	if !isList || !typeDef.IsArray() {
+		return formatScalar(val)
+	}
+
+	items := make([]string, 0, len(list))
+	for _, item := range list {
+		items = append(items, jenny.formatDefault(typeDef.Array.ValueType, item))
+	}
+
+	nonNullable := typeDef.DeepCopy()
+	nonNullable.Nullable = false
+
+	return fmt.Sprintf("%s{%s}", jenny.typeFormatter.formatType(nonNullable), strings.Join(items, ", "))
+}
+
 func (jenny RawTypes) defaultsForStruct(context languages.Context, objectRef ast.RefType, objectType ast.Type, maybeExtraDefaults any) string {
 	var buffer strings.Builder
 
@@ -292,7 +311,7 @@ func (jenny RawTypes) defaultsForStruct(context languages.Context, objectRef ast
 
 			defaultValue = jenny.maybeValueAsPointer(defaultValue, field.Type.Nullable, resolvedFieldType)
 		} else if resolvedFieldType.IsAnyOf(ast.KindScalar, ast.KindMap, ast.KindArray) && field.Type.Default != nil {
-			defaultValue = formatScalar(field.Type.Default)
+			defaultValue = jenny.formatDefault(resolvedFieldType, field.Type.Default)
 
 			defaultValue = jenny.maybeValueAsPointer(defaultValue, field.Type.Nullable, resolvedFieldType)
 		} else if field.Type.IsRef() && resolvedFieldType.IsStruct() && field.Type.Default != nil {
